@@ -108,3 +108,10 @@ Theorem internal_error_reachable_sum :
   exists s c, (forall name start n, c = CGetSlice name start n -> is_u64 start /\ is_u64 n) /\
               snd (step SliceSum SliceSum 0 0 s c) = Err (-6).
 Proof. exact get_slice_internal_error_sum. Qed.
+
+(* the call model now also contains gd_rename, gd_move and gd_alter_carray (check* ; commit, order of name.c / move.c / mod.c):
+   the statement above quantifies over them; spelled out for the three *)
+Theorem failed_rename_move_alter_pure : forall pf gf s s' e c,
+  (exists n m, c = CRename n m) \/ (exists n g, c = CMove n g) \/ (exists n l, c = CAlterCarray n l) ->
+  step pf gf 0 0 s c = (s', Err e) -> obs s' = obs s.
+Proof. intros pf gf s s' e c _ H. exact (failed_call_pure_balanced pf gf s c s' e H). Qed.
